@@ -66,6 +66,16 @@ def is_cl_value(facts, v):
     return x is not None and bool(INT_PARSE.search(x[1]) or (len(x) > 4 and INT_PARSE.search(x[4] or "")))
 
 
+def term_at(v, path):
+    """the sub-term of an aggregate term at a field path (through nested struct aggregates)"""
+    for seg in path:
+        if v and v[0] == "agg" and isinstance(v[3], dict) and seg in v[3]:
+            v = v[3][seg]
+        else:
+            return ("unknown",)
+    return v
+
+
 class FramingModel:
     def __init__(self, facts):
         self.facts = facts
@@ -187,25 +197,40 @@ class FramingModel:
             rq = r[3]["0"][3]
             row["kind"] = "ok"
             row["request"] = rq
-            readers = [v for k, v in rq.items() if v and v[0] == "some" and not (absint.contains(absint.deep(p.state, v), ("init", (self.wr[0],))) if self.wr else False)
-                       and self.nr0.file and k in self.reader_fields()]
+            rpaths = self.reader_paths()
+            readers = []
+            for path in rpaths:
+                v = absint.deep(p.state, term_at(("agg", REQ, "Request", rq), path))
+                if v and v[0] == "some":
+                    readers.append(v)
             row["reader"], row["fused"] = self.reader_class(p, readers[0][1]) if len(readers) == 1 else ("?", False)
             src_key = (self.src,)
             row["released"] = any(e[1] == "drop" and e[3] == src_key for e in p.events)
             row["reads"] = len([e for e in p.calls() if re.search(r"std::io::Read::read(_exact|_to_end)?$| as std::io::Read>::read(_exact|_to_end)?$", e[2]) or (e[6] or "").startswith("std::io::Read::read")])
-            row["length"] = [v for k, v in rq.items() if k in self.length_fields()]
-            row["continue"] = [v for k, v in rq.items() if k in self.continue_fields()]
+            whole = ("agg", REQ, "Request", rq)
+            row["length"] = [term_at(whole, path) for path in self.length_paths()]
+            row["continue"] = [term_at(whole, path) for path in self.continue_paths()]
         return row
 
+    def reader_paths(self):
+        return shared.find_slot_paths(self.facts, REQ, r"Option<std::boxed::Box<.?dyn std::io::Read")
+
+    def length_paths(self):
+        return shared.find_slot_paths(self.facts, REQ, r"^std::option::Option<usize>$")
+
+    def continue_paths(self):
+        # the bool field of Request that as_reader consults (C18 binds it); here: every bool field (the one copied from the `secure`
+        # argument is told apart by its value)
+        return shared.find_slot_paths(self.facts, REQ, r"^bool$")
+
     def reader_fields(self):
-        return [x["name"] for x in self.facts.adt(REQ)["variants"][0]["fields"] if re.search(r"Option<std::boxed::Box<\(?dyn std::io::Read", x["ty"])]
+        return [p[-1] for p in self.reader_paths()]
 
     def length_fields(self):
-        return [x["name"] for x in self.facts.adt(REQ)["variants"][0]["fields"] if x["ty"] == "std::option::Option<usize>"]
+        return [p[-1] for p in self.length_paths()]
 
     def continue_fields(self):
-        # the bool field of Request that as_reader consults (C18 binds it); here: every bool field except the one copied from the `secure` argument
-        return [x["name"] for x in self.facts.adt(REQ)["variants"][0]["fields"] if x["ty"] == "bool"]
+        return [p[-1] for p in self.continue_paths()]
 
     # -- evaluation ------------------------------------------------------------------------------
     @staticmethod
